@@ -6,62 +6,120 @@
 -/
 namespace HLV.Own
 
-/-! ### (1) the heap cell of a boxed collection -/
+/-! ### (1) the heap cell of a boxed collection
+
+The operations are the ownership-relevant calls of `boxed.rs`, one constructor per call (the
+translator extracts the calls of `new_unchecked`, `Drop::drop` and `into_child` in evaluation
+order; `Static/OwnRules.lean` maps them to these operations, so the theorems of `Props/C16.lean`
+are about the call sequences the source contains now). -/
 
 inductive MemOp
-  | leakBox          -- `Box::leak(Box::new(UnsafeCell::new(data)))`
-  | buildLocks       -- `get_ptrs` + sort into `self.locks`
+  | boxNew           -- `Box::new(UnsafeCell::new(data))`: allocates the cell, owned by a `Box` value
+  | boxLeak          -- `Box::leak(b)`: the `Box` value is given up, the cell lives on behind a raw pointer
+  | buildLocks       -- the `locks` vector comes into being (`Vec::new()`, filled by `get_ptrs`, sorted)
   | clearLocks       -- `self.locks.clear()` (Drop::drop)
   | dropLocksInPlace -- `ptr::drop_in_place(&mut self.locks)` (into_child)
-  | fromRawDrop      -- `drop(Box::from_raw(self.data))`: frees the cell, drops the payload
-  | fromRawIntoInner -- `Box::from_raw(self.data).into_inner()`: frees the cell, moves the payload out
-  | fieldGlue        -- the compiler's drop glue for the struct's fields after `Drop::drop` (drops the `locks` Vec)
+  | fromRaw          -- `Box::from_raw(self.data)`: a `Box` value owning the cell again
+  | dropBox          -- `drop(boxed)`: frees the cell, drops the payload
+  | boxIntoInner     -- `boxed.into_inner()`: frees the cell, moves the payload out to the caller
   | forgetSelf       -- `mem::forget(self)`: neither `Drop::drop` nor the field glue will run
+  | fieldGlue        -- the compiler's drop glue for the struct's fields after `Drop::drop` (drops the `locks` Vec)
   deriving DecidableEq, Repr
 
 structure Mem where
   cellAllocs : Nat := 0
   cellFrees : Nat := 0
+  boxLive : Nat := 0                -- `Box` values that currently own the cell
   payloadDrops : Nat := 0
   payloadMovedOut : Nat := 0
   locksBuilt : Nat := 0
   locksFreed : Nat := 0
-  useAfterFree : Bool := false      -- the cell or the locks Vec was touched after being freed
+  useAfterFree : Bool := false      -- the cell or the locks Vec was touched after being freed, or two owners of the cell
   forgotten : Bool := false
   deriving DecidableEq, Repr
 
 def Mem.step (m : Mem) : MemOp → Mem
-  | .leakBox => { m with cellAllocs := m.cellAllocs + 1 }
+  | .boxNew => { m with cellAllocs := m.cellAllocs + 1, boxLive := m.boxLive + 1 }
+  | .boxLeak => { m with boxLive := m.boxLive - 1, useAfterFree := m.useAfterFree || decide (m.boxLive = 0) }
   | .buildLocks => { m with locksBuilt := m.locksBuilt + 1 }
   | .clearLocks => { m with useAfterFree := m.useAfterFree || decide (m.locksFreed ≥ m.locksBuilt) }
   | .dropLocksInPlace =>
     { m with locksFreed := m.locksFreed + 1, useAfterFree := m.useAfterFree || decide (m.locksFreed ≥ m.locksBuilt) }
-  | .fromRawDrop =>
-    { m with cellFrees := m.cellFrees + 1, payloadDrops := m.payloadDrops + 1,
-             useAfterFree := m.useAfterFree || decide (m.cellFrees ≥ m.cellAllocs) }
-  | .fromRawIntoInner =>
-    { m with cellFrees := m.cellFrees + 1, payloadMovedOut := m.payloadMovedOut + 1,
-             useAfterFree := m.useAfterFree || decide (m.cellFrees ≥ m.cellAllocs) }
-  | .fieldGlue =>
-    if m.forgotten then m
-    else { m with locksFreed := m.locksFreed + 1, useAfterFree := m.useAfterFree || decide (m.locksFreed ≥ m.locksBuilt) }
+  | .fromRaw =>
+    { m with boxLive := m.boxLive + 1,
+             useAfterFree := m.useAfterFree || decide (m.cellFrees ≥ m.cellAllocs) || decide (m.boxLive > 0) }
+  | .dropBox =>
+    { m with boxLive := m.boxLive - 1, cellFrees := m.cellFrees + 1, payloadDrops := m.payloadDrops + 1,
+             useAfterFree := m.useAfterFree || decide (m.boxLive = 0) }
+  | .boxIntoInner =>
+    { m with boxLive := m.boxLive - 1, cellFrees := m.cellFrees + 1, payloadMovedOut := m.payloadMovedOut + 1,
+             useAfterFree := m.useAfterFree || decide (m.boxLive = 0) }
   | .forgetSelf => { m with forgotten := true }
+  | .fieldGlue =>
+    { m with locksFreed := m.locksFreed + 1, useAfterFree := m.useAfterFree || decide (m.locksFreed ≥ m.locksBuilt) }
 
-def run (ops : List MemOp) : Mem := ops.foldl Mem.step {}
+/-- the end of a function body: every `Box` value still alive is dropped by the compiler -/
+def Mem.endScope (m : Mem) : Mem := Nat.repeat (fun m => m.step .dropBox) m.boxLive m
 
-/-- `new_unchecked` -/
-def opsNew : List MemOp := [.leakBox, .buildLocks]
-/-- `impl Drop for BoxedLockCollection` followed by the field glue -/
-def opsDrop : List MemOp := [.clearLocks, .fromRawDrop, .fieldGlue]
-/-- `into_child` -/
-def opsIntoChild : List MemOp := [.dropLocksInPlace, .fromRawIntoInner, .forgetSelf, .fieldGlue]
+/-- one function body -/
+def Mem.body (m : Mem) (ops : List MemOp) : Mem := (ops.foldl Mem.step m).endScope
+
+/-- the collection value goes out of scope (or is consumed by a function that does not forget it):
+`Drop::drop` runs, then the field glue — unless it has been forgotten -/
+def Mem.dropSelf (m : Mem) (dropOps : List MemOp) : Mem :=
+  if m.forgotten then m else (m.body dropOps).step .fieldGlue
+
+/-- `new_unchecked` … the collection is dropped -/
+def lifeDrop (newOps dropOps : List MemOp) : Mem := (({} : Mem).body newOps).dropSelf dropOps
+/-- `new_unchecked` … `into_child(self)`: the body runs, then `self` (taken by value) goes out of scope -/
+def lifeIntoChild (newOps childOps dropOps : List MemOp) : Mem :=
+  ((({} : Mem).body newOps).body childOps).dropSelf dropOps
+
+/-- what the source is expected to say (the extracted sequences are compared with these in
+`Props/C16.lean`; the theorems are stated on the extracted ones) -/
+def opsNew : List MemOp := [.boxNew, .boxLeak, .buildLocks]
+def opsDrop : List MemOp := [.clearLocks, .fromRaw, .dropBox]
+def opsIntoChild : List MemOp := [.dropLocksInPlace, .fromRaw, .forgetSelf, .boxIntoInner]
 
 /-- clean end state: everything allocated was freed exactly once, the payload was dropped or
 handed to the caller exactly once, nothing was touched after being freed -/
 def Mem.clean (m : Mem) (movedOut : Bool) : Bool :=
-  m.cellAllocs == 1 && m.cellFrees == 1 && m.locksBuilt == 1 && m.locksFreed == 1 && !m.useAfterFree &&
+  m.cellAllocs == 1 && m.cellFrees == 1 && m.boxLive == 0 && m.locksBuilt == 1 && m.locksFreed == 1 && !m.useAfterFree &&
   (if movedOut then m.payloadDrops == 0 && m.payloadMovedOut == 1
    else m.payloadDrops == 1 && m.payloadMovedOut == 0)
+
+/-! ### (1b) the `MaybeUninit` arrays of `lockable.rs`
+
+`[T; N]::{guard, data_mut, read_guard, data_ref, get_mut, into_inner}` build their result in an
+uninitialised array: one `write` per loop iteration, then `assume_init` on every slot. Slot `j`
+counts the writes it received: 0 at `assume_init` is a read of uninitialised memory, 2 or more
+leaks the overwritten value (`MaybeUninit::write` does not drop), an index out of bounds panics
+with everything written so far leaked. -/
+
+/-- which slot an iteration writes, and which element it takes the value from -/
+inductive Idx
+  | loopVar          -- `i`
+  | const (k : Nat)  -- a literal
+  deriving DecidableEq, Repr
+
+def Idx.eval : Idx → Nat → Nat
+  | .loopVar, i => i
+  | .const k, _ => k
+
+structure ArrFill where
+  dst : Idx          -- `guards[dst].write(…)`
+  src : Idx          -- `self[src].f()` / the element the iterator yields at `i`
+  deriving DecidableEq, Repr
+
+/-- writes per slot after the loop `for i in 0..n` -/
+def ArrFill.writes (f : ArrFill) (n : Nat) : List Nat :=
+  (List.range n).map fun j => ((List.range n).map f.dst.eval).count j
+/-- the element whose value ends up in slot `j` (last write wins) -/
+def ArrFill.source (f : ArrFill) (n j : Nat) : Option Nat :=
+  (((List.range n).filter fun i => f.dst.eval i == j).getLast?).map f.src.eval
+/-- no out-of-bounds index, every slot written exactly once, slot `j` holds element `j` -/
+def ArrFill.clean (f : ArrFill) (n : Nat) : Prop :=
+  (∀ i < n, f.dst.eval i < n) ∧ f.writes n = List.replicate n 1 ∧ ∀ j < n, f.source n j = some j
 
 /-! ### (2) positions -/
 
